@@ -351,6 +351,12 @@ def extract():
         if r is None:
             raise Bad(f"{cname}: no _from_npz_reader found along its bases")
         T["reader_of"][cname] = r
+    # the sort that TsGroup.save applies to the concatenated timestamps (recorded: Model/Npz.v takes it as a parameter)
+    gsave = find_method(find_class(trees["ts_group"], "TsGroup"), "save")
+    srt = [n for n in ast.walk(gsave) if isinstance(n, ast.Call) and ast.unparse(n.func) in ("np.argsort", "np.lexsort", "np.sort")]
+    if len(srt) != 1:
+        raise Bad(f"TsGroup.save: expected exactly one np.argsort call, found {len(srt)}")
+    T["group_sort_call"] = ast.unparse(srt[0])
     readers = sorted(set(T["reader_of"].values()))
     if readers != ["IntervalSet", "TsGroup", "_Base"]:
         raise Bad(f"unexpected set of reader definitions: {readers}")
@@ -435,10 +441,13 @@ def render(T):
              lst([f"({q(c)}, {q(T['reader_of'][c])})" for c, _ in CLASSES]) + ".\n")
     o.append("Definition expected_entries : list (string * list string) := " +
              lst([f"({q(c)}, [{'; '.join(q(k) for k in ks)}])" for c, ks in T["expected"]]) + ".\n")
-    o.append("(* constructor parameters after self: (name, required) ; and whether the constructor takes **kwargs *)")
+    o.append("(* constructor parameters after self: (name, required) ; and whether the constructor takes **kwargs\n"
+             "   (classes whose reader passes file entries as keyword arguments; TsGroup's reader calls cls positionally) *)")
     o.append("Definition ctor_params : list (string * (list (string * bool) * bool)) := " +
              lst([f"({q(c)}, ([{'; '.join(f'({q(p)}, {b(r)})' for p, r in T['ctor'][c]['params'])}], {b(T['ctor'][c]['kwargs'])}))"
-                  for c, _ in CLASSES]) + ".\n")
+                  for c, _ in CLASSES if T["reader_of"][c] != "TsGroup"]) + ".\n")
+    o.append("(* the sort TsGroup.save applies to the concatenated timestamps (a parameter of the model; recorded for the reader) *)")
+    o.append("Definition group_sort_call : string := " + q(T["group_sort_call"]) + ".\n")
     o.append("(* normalised source hashes of the functions the tables were read from / that Model/Npz.v models by hand *)")
     o.append("Definition source_hashes : list (string * string) := " +
              lst([f"({q(k)}, {q(v)})" for k, v in sorted(T["hashes"].items())]) + ".")
